@@ -518,6 +518,8 @@ class Program:
             if last in _SEQ_NAMES:
                 return ('seq', self.ann_to_type(args[0], mod, _depth + 1))
             if last in ('Tuple', 'tuple'):
+                if len(args) > 1 and not any(isinstance(a, ast.Constant) and a.value is Ellipsis for a in args):
+                    return ('tuple', tuple(self.ann_to_type(a, mod, _depth + 1) for a in args))
                 return ('seq', self.ann_to_type(args[0], mod, _depth + 1))
             if last == 'Optional':
                 return self.ann_to_type(args[0], mod, _depth + 1)
@@ -765,6 +767,10 @@ class FuncEnv:
                     return recv[1] if idx == (0,) else recv[2] if idx == (1,) else UNKNOWN
         if base[0] == 'seq':
             return base[1]
+        if base[0] == 'tuple' and idx and idx[0] < len(base[1]):
+            if len(idx) == 1:
+                return base[1][idx[0]]
+            return self._unpack_type(base[1][idx[0]], ast.Name(id='_'), idx[1:], 'assign')
         return UNKNOWN
 
     def _global_type(self, res):
@@ -787,6 +793,8 @@ class FuncEnv:
             return t[1]
         if t[0] == 'dict':
             return t[1]
+        if t[0] == 'tuple' and t[1] and all(x == t[1][0] for x in t[1]):
+            return t[1][0]
         return UNKNOWN
 
     def type_of(self, expr: ast.AST):
